@@ -186,8 +186,13 @@ fn observe(w: &dyn W, compound: bool) -> Result<Kvs, String> {
             rt.push((format!("rt.{}", k), v));
         }
     }
+    let pad_obs = match guard(|| w.pad()) {
+        Ok(p) => crate::opt_n(p),
+        Err(()) => Obs::S("PANIC"),
+    };
     let mut out = vec![
         ("size".to_string(), size_obs),
+        ("get_padding".to_string(), pad_obs),
         ("writes".to_string(), Obs::L(vec![Obs::L(vec![wres(r), Obs::B(buf)])])),
     ];
     out.extend(rt);
